@@ -701,7 +701,10 @@ func TestVerifC10(t *testing.T) {
 		}
 		r := vNewRand(vSeed())
 		// every key x every version, generated bodies
-		per := vN(1, 6)
+		per := 1 // bodies per (key, version); not scaled by VERIF_N (the failing-input search scales the grammar cases)
+		if vTier() == "thorough" {
+			per = 6
+		}
 		for _, key := range c10Keys {
 			max := kmsg.RequestForKey(key).MaxVersion()
 			for ver := int16(0); ver <= max; ver++ {
